@@ -176,14 +176,7 @@ impl LogReader {
     where
         T: DeserializeOwned,
     {
-        // We assume that the caller always provide a valid data entry so we can expand the Mmap
-        // and try reading with the `len` and `pos`.
-        if pos >= self.mmap.len() as u64 {
-            self.mmap = memmap2::MmapOptions::new().map(&self.file)?;
-        }
-        let start = pos as usize;
-        let end = start + len as usize;
-        bincode::deserialize(&self.mmap[(start..end)])
+        bincode::deserialize(self.segment(len, pos)?)
     }
 
     /// Copy the raw data at the given position into the writer at `dst` by mapping the file segment
@@ -196,14 +189,28 @@ impl LogReader {
     where
         W: Write,
     {
-        // We assume that the caller always provide a valid data entry so we can expand the Mmap
-        // and try reading with the `len` and `pos`.
-        if pos >= self.mmap.len() as u64 {
+        io::copy(&mut self.segment(len, pos)?.reader(), dst)
+    }
+
+    /// Return the file segment given by `len` and `pos`. The file is mapped again when the
+    /// segment ends beyond the current mapping, because the file could have grown since it was
+    /// mapped. A segment that is still not entirely within the file is an error.
+    unsafe fn segment(&mut self, len: u64, pos: u64) -> io::Result<&[u8]> {
+        let out_of_file = || {
+            io::Error::new(
+                io::ErrorKind::UnexpectedEof,
+                "log entry is beyond the end of the file",
+            )
+        };
+        let start = usize::try_from(pos).map_err(|_| out_of_file())?;
+        let end = usize::try_from(len)
+            .ok()
+            .and_then(|len| start.checked_add(len))
+            .ok_or_else(out_of_file)?;
+        if end > self.mmap.len() {
             self.mmap = memmap2::MmapOptions::new().map(&self.file)?;
         }
-        let start = pos as usize;
-        let end = start + len as usize;
-        io::copy(&mut self.mmap[start..end].reader(), dst)
+        self.mmap.get(start..end).ok_or_else(out_of_file)
     }
 }
 
